@@ -115,7 +115,7 @@ func (g *gen) genStruct(depth int) *Struct {
 			switch {
 			case k == KDur || k == KPDur:
 				f.Bound = []string{"min=8s", "max=30s", "nonzero", "positive", "min=7.5", "max=1m"}[t.Choose(6, "bound")]
-			case k == KStr || k == KPStr || k == KVStr:
+			case k == KStr || k == KPStr || k == KVStr || k == KPMInt:
 				f.Bound = "nonzero"
 			case k == KF32:
 				f.Bound = []string{"min=8", "max=50", "nonzero", "positive", "max=0.1", "min=0.7"}[t.Choose(6, "bound")]
@@ -340,6 +340,11 @@ func (fc *FieldCase) rawInput() interface{} {
 		return []interface{}{uint64(10 + n%80), uint64(11 + n%80)}
 	case KMA2:
 		return map[string]interface{}{"p": []interface{}{uint64(10 + n%80), uint64(11 + n%80)}, "q": []interface{}{uint64(12 + n%80), uint64(13 + n%80)}}
+	case KPMInt:
+		if fc.F.Bound == "nonzero" && n%2 == 0 {
+			return map[string]interface{}{} // (no entries: breaks nonzero unless the pre-filled map has some)
+		}
+		return map[string]interface{}{"p": uint64(10 + n%80), "q": uint64(11 + n%80)}
 	case KMInt, KMVInt:
 		return map[string]interface{}{"p": uint64(10 + n%80), "q": uint64(11 + n%80)}
 	case KMSlice:
@@ -387,7 +392,7 @@ func (fc *FieldCase) rawInput() interface{} {
 // boundable: kinds whose fields may carry a built-in validator with a value-level meaning.
 func boundable(k Kind) bool {
 	switch k {
-	case KInt, KInt8, KUint16, KF64, KF32, KStr, KDur, KPInt, KPStr, KVInt, KPI, KPDur, KU64, KVStr, KUPrim:
+	case KInt, KInt8, KUint16, KF64, KF32, KStr, KDur, KPInt, KPStr, KVInt, KPI, KPDur, KU64, KVStr, KUPrim, KPMInt:
 		return true
 	}
 	return false
@@ -514,6 +519,12 @@ func (sc *StructCase) prefill(v reflect.Value) {
 			f.Set(reflect.ValueOf(map[string][2]int{"p": {1, 2}, "z": {9, 9}}))
 		case KMInt:
 			f.Set(reflect.ValueOf(map[string]int{"p": 1, "z": 9}))
+		case KPMInt:
+			m := map[string]int{"p": 1, "z": 9}
+			if fc.PreVar == 1 {
+				m = map[string]int{} // (the zero-like variant: a map without entries)
+			}
+			f.Set(reflect.ValueOf(&m))
 		case KMVInt:
 			f.Set(reflect.ValueOf(map[string]VInt{"p": 3, "z": 9}))
 		case KPI:
@@ -835,6 +846,17 @@ func (sc *StructCase) apply(v reflect.Value, present bool) {
 				m[k] = [2]int{l[0], l[1]}
 			}
 			f.Set(reflect.ValueOf(m))
+		case KPMInt:
+			m := map[string]int{}
+			if !f.IsNil() {
+				for _, k := range f.Elem().MapKeys() {
+					m[k.String()] = int(f.Elem().MapIndex(k).Int())
+				}
+			}
+			for k, x := range in.(map[string]interface{}) {
+				m[k] = int(x.(uint64))
+			}
+			f.Set(reflect.ValueOf(&m))
 		case KMInt:
 			m := map[string]int{}
 			if !f.IsNil() {
